@@ -24,6 +24,7 @@ class Solve:
         self.stationarity = {}  # (var, idx) -> Lagrangian coefficient (must be 0)
         self.psd_primal = []   # (Variable, ndarray of symbols): PSD by contract
         self.psd_dual = []     # (Constraint, ndarray of symbols): PSD by contract
+        self.row_values = []   # (Constraint, value of its expression at the returned primal point)
 
 
 class CvxStub:
@@ -77,6 +78,7 @@ class CvxStub:
             else:
                 e = c.expr.value
                 env.assume(env.le(e, 0) if c.kind == 'le' else env.eq(e, 0), 'primal%d' % k)
+                sv.row_values.append((c, e))
         # ---- duals ---------------------------------------------------------------------------------
         lag = {}
 
@@ -108,6 +110,7 @@ class CvxStub:
                 sv.duals.append(y)
                 if c.kind == 'le':
                     env.assume(env.ge(y, 0), 'kkt%d' % k)
+                    env.assume(env.eq(y * c.expr.value, 0), 'cs%d' % k)    # complementary slackness
                 for key, v in c.expr.terms.items():
                     acc(key, y * v)
         for v in vars_:
@@ -244,6 +247,10 @@ class MosekStub:
             for j, a in lin.items():
                 val = val + a * xx[j]
             sv.rows.append(val)
+            if bk == mosek.boundkey.up:
+                env.assume(env.eq(y[i] * (val - bu), 0), 'cs%d' % k)      # complementary slackness
+            if bk == mosek.boundkey.lo:
+                env.assume(env.eq(y[i] * (val - bl), 0), 'cs%d' % k)
             if bk in (mosek.boundkey.up, mosek.boundkey.ra):
                 env.assume(env.le(val, bu), 'primal%d' % k)
             if bk in (mosek.boundkey.lo, mosek.boundkey.ra):
